@@ -133,7 +133,7 @@ cycle_c = Contract(
     locals={"completed": SetK, "seen": SetK, "nodes": T.Seq(Key), "next_nodes": T.Seq(Key), "cur": Key, "prev": Key,
             "priorities": T.Map(Key, T.Int), "npopped": T.Int, "inplay": SetK, "dependents": Deps, "cycle": T.Seq(Key), "deps": SetK,
             "push": T.Seq(T.Int), "exp": T.Map(Key, T.Int), "rank": T.Map(Key, T.Int), "CNT": T.Int,
-            "nodes0": T.Seq(Key), "push0": T.Seq(T.Int), "DJ": T.Map(Key, T.Int), "E0": T.Int},
+            "nodes0": T.Seq(Key), "nodesL": T.Seq(Key), "push0": T.Seq(T.Int), "DJ": T.Map(Key, T.Int), "E0": T.Int},
     returns=T.Seq(Key),
     requires=[
         ("want-cycle", "returncycle"),
@@ -154,6 +154,7 @@ cycle_c = Contract(
         1: dict(invariant=_RANK + _L1 + _STACK),
         2: dict(done="DN", invariant=[
             ("next-nodes", "forall(lambda d: implies(d in DN, d in completed or d in next_nodes), Key)"),
+            ("stack-untouched (the cycle block pops it, but only on paths that leave the function)", "same(nodes, nodesL)"),
             ("next-are-fresh-dependencies-of-cur", "forall(lambda j: implies(0 <= j and j < len(next_nodes), next_nodes[j] in dependencies[cur] and next_nodes[j] not in seen and next_nodes[j] in dependencies.keys())) and len(next_nodes) >= 0"),
         ]),
         3: dict(invariant=[
@@ -173,6 +174,7 @@ cycle_c = Contract(
         ("before", "nodes.extend(next_nodes)", "push = push + [len(nodes) - 1] * len(next_nodes)"),
         ("after", "=nodes.pop()", "push = push[:len(nodes)]"),
         ("after", "completed.add(cur)", "rank[cur] = CNT\nCNT = CNT + 1"),
+        ("before", "for nxt in dependencies[cur]", "nodesL = nodes"),
         ("before", "priorities = {}", "nodes0 = nodes\npush0 = push\nDJ = {}\nE0 = exp[nxt]"),
         ("after", "priorities[nodes.pop()] = -npopped", "DJ[nodes0[len(nodes)]] = len(nodes)"),
         ("after", "priorities[nxt] = -npopped", "DJ[nxt] = E0\nassert_(len(nodes) - 1 == E0, 'stopped-at-the-expanded-entry')"),
